@@ -101,6 +101,14 @@ def gen_direct(parts, variant=None):
     # batches: some jobs' strategies admit 2-3 requests per batch; the chaos policy then answers several timestamps of such a
     # job with ONE BatchStrategy object (possibly at different times, so that a batch drains before its last member arrives)
     policy["p_batch"] = rng.choice([0.0, 0.0, 0.5, 0.9])
+    # profile loads / evictions: some jobs' profiles can be loaded onto a worker (they then occupy resources there)
+    policy["p_load"] = rng.choice([0.0, 0.0, 0.1, 0.3])
+    for g in graphs:
+        ld = {}
+        for t in g["tasks"]:
+            if t["job"] not in ld:
+                ld[t["job"]] = ({rng.choice(res_names): rng.randint(1, 2)}, rng.choice([0, 1, 3])) if rng.random() < 0.5 else None
+            t["loading"] = ld[t["job"]]
     policy["pin_all"] = policy["pin_worker"] and rng.random() < 0.6
     if variant == "planner":
         policy["pin_worker"] = policy["pin_all"] = True
@@ -157,6 +165,8 @@ class Ctx:
         self.task_obj = {}         # id(task) -> Task
         self.worker_info = {}      # id(worker) -> {"wid", "pool", "cap"}
         self.shadow_call = None
+        self.profiles = {}         # (graph, job) -> WorkProfile that has a loading strategy
+        self.profile_where = {}    # chaos-side record: (id(profile), worker id) -> True while loaded / loading
         self.shadow = False
         self.planner_rounds = 0
 
@@ -363,6 +373,48 @@ def _install():
                             ctx.count("live_batch_drained")
     wrap(wk.Worker, "remove_task", after=remove_after)
 
+    # ---- C01: loaded profiles occupy resources -------------------------------------------------
+    @active
+    def load_after(ctx, ret, self, profile, loading_strategy, *a, **k):
+        caps = ctx.caps.get(id(self))
+        if caps is None:
+            return
+        res = ctx.resident.setdefault(id(self), {})
+        d = {}
+        for rsrc, q in loading_strategy.resources.resources:
+            d[rsrc.name] = d.get(rsrc.name, 0) + q
+        res[("profile", id(profile))] = {"demand": d, "members": set(), "profile": profile.name}
+        ctx.count("live_load")
+        for n, c in caps.items():
+            used = sum(x["demand"].get(n, 0) for x in res.values())
+            if used > c:
+                ctx.violate("C01", "oversubscribed", f"worker {self.name}: {used} {n} resident incl. loaded profiles, capacity {c}")
+    wrap(wk.Worker, "load_profile", after=load_after)
+
+    @active
+    def evict_after(ctx, ret, self, profile, *a, **k):
+        res = ctx.resident.get(id(self))
+        if res is not None and res.pop(("profile", id(profile)), None) is not None:
+            ctx.count("live_evict")
+    wrap(wk.Worker, "evict_profile", after=evict_after)
+
+    @active
+    def profile_tables_check(ctx, ret, self, event):
+        # invariant at a hook: every profile a live worker knows (loading or loaded) holds the resources of its loading
+        # strategy, i.e. the harness saw its load_profile() return
+        for pool in self._worker_pools.worker_pools:
+            for w in pool.workers:
+                if id(w) not in ctx.caps:
+                    continue
+                known = {id(p): p for p in list(w.get_available_profiles()) + list(w.get_pending_profiles())}
+                res = ctx.resident.get(id(w), {})
+                ctx.count("profile_table_checks")
+                for pid_, pr in known.items():
+                    if ("profile", pid_) not in res:
+                        ctx.violate("C01", "profile_resident_without_allocation",
+                                    f"worker {w.name} lists profile {pr.name} as loading/loaded but no successful load_profile() reserved its resources")
+    wrap(Sim, "_Simulator__handle_event", after=profile_tables_check)
+
     # ---- C10: what a shadow-invoked bundled policy was offered -------------------------------
     @active
     def frontier_after(ctx, ret, self, *a, **k):
@@ -548,11 +600,42 @@ def _make_chaos(policy, pools_desc):
                         _CTX.count("chaos_batch_members")
                 out.append(Placement.create_task_placement(task=task, placement_time=when, worker_pool_id=pool.id, worker_id=wid,
                                                            execution_strategy=strat))
+            if _CTX is not None and policy.get("p_load") and rng.random() < policy["p_load"]:
+                loadable = [pr for pr in _CTX.profiles.values() if len(pr.loading_strategies) > 0]
+                if loadable:
+                    prof = rng.choice(loadable)
+                    pool = rng.choice(pools)
+                    worker = rng.choice(pool.workers)
+                    key = (id(prof), worker.id)
+                    loaded_at = _CTX.profile_where.get(key)
+                    if loaded_at is not None and loaded_at >= sim_time.time:
+                        pass  # its load has not been applied yet: nothing to evict, and no second load
+                    elif loaded_at is not None:
+                        # evict what this policy loaded earlier
+                        out.append(Placement.create_evict_profile_placement(work_profile=prof, placement_time=sim_time,
+                                                                            worker_pool_id=pool.id, worker_id=worker.id))
+                        _CTX.profile_where[key] = None
+                        _CTX.count("chaos_evictions")
+                    else:
+                        ls = prof.loading_strategies.get_fastest_strategy()
+                        # a load asked for 'now' is asked only when it fits now; one asked for later may find the worker full
+                        # by then, which the simulator refuses by raising (see run_direct: a refused load is a legitimate end)
+                        later = rng.random() < 0.12
+                        if later or worker.can_accomodate_strategy(ls):
+                            when = sim_time + EventTime(rng.randint(1, 6), EventTime.Unit.US) if later else sim_time
+                            out.append(Placement.create_load_profile_placement(work_profile=prof, placement_time=when,
+                                                                               worker_pool_id=pool.id, loading_strategy=ls,
+                                                                               worker_id=worker.id))
+                            _CTX.profile_where[key] = when.time
+                            _CTX.count("chaos_loads")
+                            if later:
+                                _CTX.count("chaos_loads_for_later")
             if _CTX is not None:
                 for p in out:
-                    _CTX.policy_decision[id(p.task)] = p
+                    if p.placement_type.name in ("PLACE_TASK", "CANCEL_TASK"):
+                        _CTX.policy_decision[id(p.task)] = p
                 _CTX.count("chaos_calls")
-                _CTX.count("chaos_placements", sum(1 for p in out if p.is_placed()))
+                _CTX.count("chaos_placements", sum(1 for p in out if p.placement_type.name == "PLACE_TASK" and p.is_placed()))
             return Placements(runtime=EventTime.zero(), true_runtime=EventTime.zero(), placements=out)
     return ChaosScheduler()
 
@@ -740,7 +823,18 @@ def run_direct(world, wall_s=30, shadow=False, decision_hooks=()):
             strategies = wl.ExecutionStrategies(strategies=[
                 wl.ExecutionStrategy(resources=wl.Resources(resource_vector={wl.Resource(name=n, _id="any"): q for n, q in req.items()}, _logger=lg),
                                      batch_size=t.get("batch_size", 1), runtime=us(rt)) for req, rt in t["strategies"]])
-            prof = wl.WorkProfile(name=f"{g['name']}_{t['job']}_profile", execution_strategies=strategies)
+            loading = wl.ExecutionStrategies()
+            if t.get("loading"):
+                lreq, lrt = t["loading"]
+                loading = wl.ExecutionStrategies(strategies=[wl.ExecutionStrategy(
+                    resources=wl.Resources(resource_vector={wl.Resource(name=n, _id="any"): q for n, q in lreq.items()}, _logger=lg),
+                    batch_size=1, runtime=us(lrt))])
+            pkey = (g["name"], t["job"])
+            if pkey not in ctx.profiles:
+                ctx.profiles[pkey] = wl.WorkProfile(name=f"{g['name']}_{t['job']}_profile", execution_strategies=strategies,
+                                                    loading_strategies=loading)
+            prof = ctx.profiles[pkey] if t.get("loading") else wl.WorkProfile(
+                name=f"{g['name']}_{t['job']}_profile", execution_strategies=strategies)
             ctx.task_spec[(g["name"], t["job"], t["ts"])] = t
             objs[(t["job"], t["ts"])] = wl.Task(name=t["job"], task_graph=g["name"], job=wl.Job(name=t["job"], profile=prof),
                                                 deadline=us(t["deadline"]), timestamp=t["ts"], release_time=us(t["release"]), _logger=lg)
@@ -828,6 +922,16 @@ def run_direct(world, wall_s=30, shadow=False, decision_hooks=()):
         tb = traceback.extract_tb(e.__traceback__)
         where = next((f"{f.filename.split('/')[-1]}:{f.name}" for f in reversed(tb) if "/vmon/" not in f.filename), "?")
         status, exc = "exception", f"{type(e).__name__}@{where}: {e}"
+        if isinstance(e, ValueError) and any(f.name == "load_profile" for f in tb):
+            # the one hostile answer that is not legal input: a profile load asked for a later time that no longer fits when
+            # it is applied.  The simulator refuses it by raising; the run is over, nothing is judged beyond this point.
+            status = "refused_load"
+            ctx.count("refused_loads")
+            ctx.status, ctx.exception, ctx.wall = status, exc, _time.time() - t0
+            signal.alarm(0)
+            signal.signal(signal.SIGALRM, old)
+            _CTX = None
+            return ctx
         # every decision of the chaos policy is legal input (own strategies, existing pools, times >= now and >= release):
         # an exception escaping simulate() means the run did not reach its end event
         ctx.violate("C05", f"exception:{type(e).__name__}@{where}", str(e)[:300])
